@@ -485,9 +485,55 @@ func genWorld(seed uint64, tier string, mode string) *Script {
 				}
 			}
 		}
+		if o.Faults && g.p(35) {
+			// a slow neighbour: its receive window is full for a while, gobgp's sender blocks and
+			// the changes queued meanwhile reach the packer as one batch
+			c := &sc.Peers[g.n(np)]
+			if !down[c.Idx] {
+				p.Ops = append(p.Ops, Op{Kind: "stall", Actor: -30 - c.Idx, Peer: c.Idx, Delay: g.n(300), N: pick(g, []int{300, 1000, 2500, 6000})})
+			}
+		}
 		p.Settle = pick(g, []int{8, 8, 12, 20})
 		p.Check = true
 		sc.Phases = append(sc.Phases, p)
+	}
+	if o.Faults && np >= 3 && g.p(25) {
+		// a best-path hand-over and its undoing while one neighbour is slow: everything that
+		// happens to the prefix reaches that neighbour's packer as ONE batch
+		//   X announces, Y announces a better route, X withdraws, Y withdraws
+		t := g.n(np)
+		for i := range sc.Peers {
+			if sc.Peers[i].AddPathRecv && g.p(70) {
+				t = i
+			}
+		}
+		x, y := (t+1)%np, (t+2)%np
+		if !down[t] && !down[x] && !down[y] {
+			var p Phase
+			pfx := pick(g, pool)
+			ax, ay := mkAnn(&sc.Peers[x]), mkAnn(&sc.Peers[y])
+			for _, a := range []*Op{&ax, &ay} {
+				a.Family, a.Prefix = "ipv4-unicast", pfx
+				a.Attrs.NextHop = sc.Peers[a.Actor].Addr
+				a.Attrs.LocalPref = 100
+			}
+			ay.Attrs.LocalPref = 200
+			// (a change to another prefix first: the sender picks it up at once and then sits in the
+			// blocked write, so that everything after it is still queued when the window reopens)
+			a0 := mkAnn(&sc.Peers[x])
+			a0.Family, a0.Delay = "ipv4-unicast", 100
+			for a0.Prefix == pfx || !strings.Contains(a0.Prefix, ".") {
+				a0.Prefix = pick(g, pool)
+			}
+			a0.Attrs.NextHop = sc.Peers[x].Addr
+			p.Ops = append(p.Ops, a0)
+			ax.Delay, ay.Delay = 100, 400
+			wx := Op{Kind: "wd", Actor: x, Family: "ipv4-unicast", Prefix: pfx, PathID: ax.PathID, Delay: 400}
+			wy := Op{Kind: "wd", Actor: y, Family: "ipv4-unicast", Prefix: pfx, PathID: ay.PathID, Delay: 400}
+			p.Ops = append(p.Ops, Op{Kind: "stall", Actor: -30 - t, Peer: t, N: pick(g, []int{1200, 2000})}, ax, ay, wx, wy)
+			p.Settle, p.Check = 8, true
+			sc.Phases = append(sc.Phases, p)
+		}
 	}
 	// last phase: bring everybody back so that the final comparison covers all peers
 	var pl Phase
@@ -735,6 +781,18 @@ func worldOp(w *simWorld, actor int, op *Op) {
 	case "enable":
 		err := w.s.EnablePeer(context.Background(), &api.EnablePeerRequest{Address: w.peers[op.Peer].cfg.Addr})
 		w.logf("EnablePeer p%d: %v", op.Peer, err)
+	case "stall":
+		p := w.peers[op.Peer]
+		p.mu.Lock()
+		c := p.conn
+		p.mu.Unlock()
+		if c == nil || !p.isUp() {
+			return
+		}
+		c.r.setStalled(true)
+		w.probe("neighbour_stalled")
+		time.Sleep(time.Duration(op.N) * time.Millisecond)
+		c.r.setStalled(false)
 	case "sleep":
 	default:
 		w.harnessError("world: unknown op %s", op.Kind)
